@@ -724,6 +724,16 @@ func driveC06(c *driverCtx) error {
 		}
 	}
 
+	// zone offsets around every boundary a table-driven parser could have (hours 12..15, 23, 24; minutes in quarter
+	// steps and beyond 59)
+	for _, sign := range []string{"+", "-"} {
+		for _, hh := range []int{0, 1, 11, 12, 13, 14, 15, 23, 24, 29, 99} {
+			for _, mm := range []int{0, 15, 30, 45, 59, 60, 75, 90, 99} {
+				add(robustCase{Entry: "time", Bytes: []byte(fmt.Sprintf("2024-03-01T12:00:00%s%02d:%02d", sign, hh, mm)), Key: "C06|time|offsets"})
+			}
+		}
+	}
+
 	results, err := runIsolated(cases, c.rec.dir)
 	if err != nil {
 		return err
